@@ -298,6 +298,169 @@ Qed.
 
 End DFSFacts.
 
+(* ================================================================== 1b. the DFS terminates within |nodes| + 1 levels, and reported cycles are short *)
+Lemma filter_len_le {A} (p : A -> bool) (l : list A) : (length (filter p l) <= length l)%nat.
+Proof. induction l as [|a r IH]; cbn; [lia|]. destruct (p a); cbn; lia. Qed.
+
+Definition remaining_in (L v : list N) : nat := length (filter (fun x => negb (mem x v)) L).
+
+Lemma remaining_in_antitone L v v' : incl v v' -> (remaining_in L v' <= remaining_in L v)%nat.
+Proof.
+  intros Hi. unfold remaining_in. induction L as [|x r IH]; cbn; [lia|].
+  destruct (mem x v) eqn:M; cbn.
+  - apply mem_In in M. apply Hi in M. apply mem_In in M. rewrite M. cbn. exact IH.
+  - destruct (mem x v'); cbn; lia.
+Qed.
+
+Lemma remaining_in_cons_le L x v : (remaining_in L (x :: v) <= remaining_in L v)%nat.
+Proof. apply remaining_in_antitone. intros z Hz. now right. Qed.
+
+Lemma remaining_in_cons L x v : In x L -> ~ In x v -> (remaining_in L (x :: v) < remaining_in L v)%nat.
+Proof.
+  unfold remaining_in. induction L as [|y r IH]; intros Hx Hn; [destruct Hx|].
+  cbn [filter]. destruct Hx as [->|Hx].
+  - pose proof (remaining_in_cons_le r x v) as Hle. unfold remaining_in in Hle.
+    assert (M1 : mem x (x :: v) = true) by (apply mem_In; now left).
+    assert (M2 : mem x v = false) by (now apply mem_nIn).
+    rewrite M1, M2. cbn [negb length]. lia.
+  - specialize (IH Hx Hn).
+    assert (E : mem y (x :: v) = N.eqb y x || mem y v) by reflexivity. rewrite E.
+    destruct (N.eqb y x), (mem y v); cbn [orb negb length]; lia.
+Qed.
+
+Section DFSTotal.
+Variable succ : N -> list N.
+Variable U : list N.                                   (* the node universe *)
+Hypothesis U_closed : forall x y, In x U -> In y (succ x) -> In y U.
+
+Definition remaining (v : list N) : nat := remaining_in U v.
+Lemma remaining_antitone v v' : incl v v' -> (remaining v' <= remaining v)%nat.
+Proof. apply remaining_in_antitone. Qed.
+Lemma remaining_cons x v : In x U -> ~ In x v -> (remaining (x :: v) < remaining v)%nat.
+Proof. apply remaining_in_cons. Qed.
+
+Lemma dfs_total : forall fuel path node s,
+  In node U -> ~ In node (vis s) -> (remaining (vis s) <= fuel)%nat ->
+  exists r, dfs succ fuel path node s = Some r /\ incl (node :: vis s) (vis r).
+Proof.
+  induction fuel as [|f IH]; intros path node s Hu Hn Hf.
+  - pose proof (remaining_cons node (vis s) Hu Hn). lia.
+  - cbn [dfs]. set (path1 := path ++ [node]).
+    assert (Hf1 : (remaining (node :: vis s) <= f)%nat) by (pose proof (remaining_cons node (vis s) Hu Hn); lia).
+    assert (G : forall l a, (forall y, In y l -> In y U) -> incl (node :: vis s) (vis a) ->
+              exists r0, fold_left (visit (dfs succ f) path1) l (Some a) = Some r0 /\ incl (vis a) (vis r0)).
+    { induction l as [|nb l IHl]; intros a Hl Ha; cbn [fold_left visit].
+      - exists a. split; [reflexivity|apply incl_refl].
+      - assert (Hl' : forall y, In y l -> In y U) by (intros; apply Hl; now right).
+        destruct (mem nb (vis a)) eqn:Mv; [destruct (mem nb path1)|].
+        + destruct (IHl (Dst (vis a) (fin a) (suffix_from nb path1 :: cycs a)) Hl' Ha) as [r0 [E I]]. exists r0. auto.
+        + apply IHl; auto.
+        + apply mem_nIn in Mv.
+          destruct (IH path1 nb a (Hl nb (or_introl eq_refl)) Mv) as [a' [D I']].
+          { pose proof (remaining_antitone _ _ Ha). lia. }
+          rewrite D. destruct (IHl a' Hl') as [r0 [E I]].
+          { intros z Hz. apply I'. right. now apply Ha. }
+          exists r0. split; [exact E|]. intros z Hz. apply I, I'. now right. }
+    destruct (G (succ node) (Dst (node :: vis s) (fin s) (cycs s))) as [r0 [E I]].
+    + intros y Hy. eapply U_closed; eauto.
+    + apply incl_refl.
+    + rewrite E. eexists. split; [reflexivity|]. cbn. exact I.
+Qed.
+
+Theorem detect_from_total fuel starts :
+  (forall x, In x starts -> In x U) -> (length U <= fuel)%nat -> exists r, detect_from succ fuel starts = Some r.
+Proof.
+  intros Hs Hf. unfold detect_from.
+  assert (G : forall l a, (forall x, In x l -> In x U) -> exists r, fold_left (dstep succ fuel) l (Some a) = Some r).
+  { induction l as [|z l IHl]; intros a Hl; cbn [fold_left dstep]; [eauto|].
+    assert (Hl' : forall x, In x l -> In x U) by (intros; apply Hl; now right).
+    destruct (mem z (vis a)) eqn:M; [now apply IHl|]. apply mem_nIn in M.
+    destruct (dfs_total fuel [] z a (Hl z (or_introl eq_refl)) M) as [a' [D _]].
+    { unfold remaining, remaining_in. pose proof (filter_len_le (fun x => negb (mem x (vis a))) U). lia. }
+    rewrite D. now apply IHl. }
+  now apply G.
+Qed.
+
+(* ---- reported cycles are duplicate-free paths inside the universe, hence no longer than |U| ---- *)
+Lemma suffix_from_sub x p : exists k, p = k ++ suffix_from x p.
+Proof.
+  induction p as [|a p IH]; cbn; [exists []; reflexivity|].
+  destruct (N.eqb a x); [exists []; reflexivity|]. destruct IH as [k E]. exists (a :: k). cbn. now rewrite <- E.
+Qed.
+Lemma suffix_from_NoDup x p : NoDup p -> NoDup (suffix_from x p).
+Proof.
+  intros H. destruct (suffix_from_sub x p) as [k E]. rewrite E in H. clear E.
+  induction k as [|a k IH]; [exact H|]. cbn in H. inversion H; subst. auto.
+Qed.
+Lemma suffix_from_incl x p : incl (suffix_from x p) p.
+Proof. destruct (suffix_from_sub x p) as [k E]. intros z Hz. rewrite E. apply in_or_app. now right. Qed.
+
+Definition Short (c : list N) : Prop := NoDup c /\ incl c U.
+
+Lemma dfs_vis_mono : forall fuel path node s r, dfs succ fuel path node s = Some r -> incl (node :: vis s) (vis r).
+Proof.
+  induction fuel as [|f IH]; intros path node s r H; [discriminate|]. cbn [dfs] in H.
+  set (path1 := path ++ [node]) in *.
+  assert (G : forall l a r0, fold_left (visit (dfs succ f) path1) l (Some a) = Some r0 -> incl (vis a) (vis r0)).
+  { induction l as [|nb l IHl]; intros a r0 Hf; cbn [fold_left visit] in Hf.
+    - injection Hf as <-. apply incl_refl.
+    - destruct (mem nb (vis a)); [destruct (mem nb path1)|].
+      + apply IHl in Hf. exact Hf.
+      + now apply IHl.
+      + destruct (dfs succ f path1 nb a) as [a'|] eqn:D; [|rewrite fold_none in Hf; discriminate].
+        apply IHl in Hf. apply IH in D. intros z Hz. apply Hf, D. now right. }
+  destruct (fold_left _ _ _) as [r0|] eqn:F; [|discriminate]. injection H as <-. cbn. now apply G in F.
+Qed.
+
+Lemma dfs_short : forall fuel path node s r,
+  dfs succ fuel path node s = Some r ->
+  In node U -> ~ In node (vis s) -> NoDup path -> incl path U -> incl path (vis s) ->
+  Forall Short (cycs s) -> Forall Short (cycs r).
+Proof.
+  induction fuel as [|f IH]; intros path node s r H Hu Hn Np Ip Iv Hc; [discriminate|]. cbn [dfs] in H.
+  set (path1 := path ++ [node]) in *.
+  assert (Np1 : NoDup path1).
+  { unfold path1. apply NoDup_app_intro; [exact Np|constructor; [tauto|constructor]|]. intros z Hz [<-|[]]. apply Hn, Iv, Hz. }
+  assert (Ip1 : incl path1 U) by (unfold path1; intros z Hz; apply in_app_iff in Hz; destruct Hz as [Hz|[<-|[]]]; auto).
+  assert (G : forall l a r0, (forall y, In y l -> In y U) -> incl path1 (vis a) ->
+              fold_left (visit (dfs succ f) path1) l (Some a) = Some r0 -> Forall Short (cycs a) -> Forall Short (cycs r0)).
+  { induction l as [|nb l IHl]; intros a r0 Hl Ha Hf Hca; cbn [fold_left visit] in Hf.
+    - injection Hf as <-. exact Hca.
+    - assert (Hl' : forall y, In y l -> In y U) by (intros; apply Hl; now right).
+      destruct (mem nb (vis a)) eqn:Mv; [destruct (mem nb path1)|].
+      + eapply IHl; [exact Hl'| |exact Hf|]; [exact Ha|]. cbn. constructor; [|exact Hca].
+        split; [now apply suffix_from_NoDup|]. intros z Hz. apply Ip1. eapply suffix_from_incl; eauto.
+      + eapply IHl; eauto.
+      + destruct (dfs succ f path1 nb a) as [a'|] eqn:D; [|rewrite fold_none in Hf; discriminate].
+        apply mem_nIn in Mv.
+        eapply IHl; [exact Hl'| |exact Hf|].
+        * intros z Hz. apply (dfs_vis_mono _ _ _ _ _ D). right. now apply Ha.
+        * eapply IH; [exact D|apply Hl; now left|exact Mv|exact Np1|exact Ip1|exact Ha|exact Hca]. }
+  destruct (fold_left _ _ _) as [r0|] eqn:F; [|discriminate]. injection H as <-. cbn.
+  eapply G; [|..|exact F|exact Hc].
+  - intros y Hy. eapply U_closed; eauto.
+  - cbn. unfold path1. intros z Hz. apply in_app_iff in Hz. destruct Hz as [Hz|[<-|[]]]; [right; auto|now left].
+Qed.
+
+Theorem detect_from_short fuel starts r :
+  (forall x, In x starts -> In x U) -> detect_from succ fuel starts = Some r -> Forall Short (cycs r).
+Proof.
+  intros Hs. unfold detect_from.
+  assert (G : forall l a r0, (forall x, In x l -> In x U) -> fold_left (dstep succ fuel) l (Some a) = Some r0 ->
+              Forall Short (cycs a) -> Forall Short (cycs r0)).
+  { induction l as [|z l IHl]; intros a r0 Hl Hf Ha; cbn [fold_left dstep] in Hf.
+    - injection Hf as <-. exact Ha.
+    - assert (Hl' : forall x, In x l -> In x U) by (intros; apply Hl; now right).
+      destruct (mem z (vis a)) eqn:M; [eapply IHl; eauto|]. apply mem_nIn in M.
+      destruct (dfs succ fuel [] z a) as [a'|] eqn:D; [|rewrite dfold_none in Hf; discriminate].
+      eapply IHl; [exact Hl'|exact Hf|]. eapply dfs_short; [exact D|apply Hl; now left|exact M|constructor|intros ? []|intros ? []|exact Ha]. }
+  intros H. eapply G; [exact Hs|exact H|constructor].
+Qed.
+
+Lemma Short_length c : NoDup U -> Short c -> (length c <= length U)%nat.
+Proof. intros _ [Nc Ic]. now apply NoDup_incl_length. Qed.
+End DFSTotal.
+
 (* ================================================================== 2. wait-for graph *)
 (* forward and reverse maps describe the same relation *)
 Definition GInv (g : wg) : Prop := forall w h, In h (succs g w) <-> In w (preds g h).
@@ -842,4 +1005,76 @@ Proof.
   - intros c v H. apply A in H. destruct H as [Hc [_ ->]].
     pose proof (detect_cycles_sound g cs Hd) as F. rewrite Forall_forall in F. specialize (F c Hc).
     split; [exact F|]. apply select_victim_in. destruct F as [Hne _]. exact Hne.
+Qed.
+
+(* ================================================================== 5. the detector is total on every wait-for graph *)
+Lemma fold_set_add_In l : forall acc z, In z (fold_left (fun a y => set_add y a) l acc) <-> In z acc \/ In z l.
+Proof.
+  induction l as [|y r IH]; intros acc z; cbn [fold_left]; [cbn; tauto|].
+  rewrite IH, set_add_In. cbn [In]. split.
+  - intros [[->|H]|H]; auto.
+  - intros [H|[->|H]]; auto.
+Qed.
+Lemma fold_set_add_NoDup l : forall acc, NoDup acc -> NoDup (fold_left (fun a y => set_add y a) l acc).
+Proof. induction l as [|y r IH]; intros acc H; cbn; [exact H|]. apply IH. now apply set_add_NoDup. Qed.
+
+Lemma nodes_fold_In (L : list (N * list N)) : forall acc z,
+  In z (fold_left (fun acc kl => fold_left (fun a y => set_add y a) (snd kl) (set_add (fst kl) acc)) L acc) <->
+  In z acc \/ exists k l, In (k, l) L /\ (z = k \/ In z l).
+Proof.
+  induction L as [|[k0 l0] r IH]; intros acc z; cbn [fold_left fst snd].
+  - split; [auto|intros [H|[k [l [[] _]]]]; exact H].
+  - rewrite IH, fold_set_add_In, set_add_In. split.
+    + intros [[[->|H]|H]|[k [l [Hin Hz]]]]; [right; exists k0, l0; cbn; auto|auto|right; exists k0, l0; cbn; auto|right; exists k, l; cbn; auto].
+    + intros [H|[k [l [[[= <- <-]|Hin] Hz]]]]; [auto| |right; eauto]. destruct Hz as [->|Hz]; auto.
+Qed.
+Lemma nodes_fold_NoDup (L : list (N * list N)) : forall acc, NoDup acc ->
+  NoDup (fold_left (fun acc kl => fold_left (fun a y => set_add y a) (snd kl) (set_add (fst kl) acc)) L acc).
+Proof. induction L as [|kl r IH]; intros acc H; cbn; [exact H|]. apply IH, fold_set_add_NoDup, set_add_NoDup, H. Qed.
+
+Lemma wg_nodes_In g z : In z (wg_nodes g) <-> exists k l, In (k, l) (fwd g) /\ (z = k \/ In z l).
+Proof. unfold wg_nodes. rewrite nodes_fold_In. split; [intros [[]|H]; exact H|auto]. Qed.
+Lemma wg_nodes_NoDup g : NoDup (wg_nodes g).
+Proof. apply nodes_fold_NoDup. constructor. Qed.
+
+Lemma wg_nodes_closed g x y : In x (wg_nodes g) -> In y (succs g x) -> In y (wg_nodes g).
+Proof.
+  intros _ Hy. unfold succs in Hy. destruct (aget (fwd g) x) as [l|] eqn:G; [|destruct Hy].
+  apply wg_nodes_In. exists x, l. split; [now apply aget_In|now right].
+Qed.
+Lemma wg_starts_nodes g x : In x (map fst (fwd g)) -> In x (wg_nodes g).
+Proof.
+  intros H. apply in_map_iff in H. destruct H as [[k l] [<- Hin]]. apply wg_nodes_In. exists k, l. cbn. auto.
+Qed.
+
+(* the DFS of detect_cycles never runs out of its fuel (|nodes| + 1) *)
+Theorem detect_cycles_total g : exists cs, detect_cycles g = Some cs.
+Proof.
+  unfold detect_cycles.
+  destruct (detect_from_total (succs g) (wg_nodes g) (wg_nodes_closed g) (Datatypes.S (length (wg_nodes g))) (map fst (fwd g))
+              (wg_starts_nodes g)) as [r E]; [lia|]. rewrite E. eauto.
+Qed.
+
+(* every reported cycle visits each transaction at most once, so it is no longer than the number of transactions *)
+Theorem detect_cycles_short g cs c : detect_cycles g = Some cs -> In c cs -> (length c <= length (wg_nodes g))%nat.
+Proof.
+  unfold detect_cycles. destruct (detect_from _ _ _) as [r|] eqn:E; [|discriminate]. intros [= <-] Hin.
+  apply in_rev in Hin.
+  pose proof (detect_from_short (succs g) (wg_nodes g) (wg_nodes_closed g) _ _ r (wg_starts_nodes g) E) as F.
+  rewrite Forall_forall in F. apply (Short_length (wg_nodes g)); [apply wg_nodes_NoDup|]. now apply F.
+Qed.
+
+(* END TO END: on any wait-for graph with at most max_cycle_length transactions, detect_cycles terminates, the
+   detector reports a deadlock exactly when the recorded relation has a cycle, every reported cycle is a cycle of the
+   relation, and every victim belongs to its cycle *)
+Theorem deadlock_report_total g cfg pol ws pr lc :
+  enabled cfg = true -> N.of_nat (length (wg_nodes g)) <= max_cycle cfg ->
+  exists cs, detect_cycles g = Some cs /\
+    let ds := detect cfg (select_victim pol ws pr lc) cs in
+    (ds <> [] <-> exists x, rp (succs g) x x) /\
+    (forall c v, In (c, v) ds -> is_cycle (succs g) c /\ In v c).
+Proof.
+  intros He Hm. destruct (detect_cycles_total g) as [cs E]. exists cs. split; [exact E|].
+  apply deadlock_report; [exact E|exact He|]. intros c Hc. unfold short_enough. apply N.leb_le.
+  pose proof (detect_cycles_short g cs c E Hc). lia.
 Qed.
